@@ -112,6 +112,7 @@ class Hub:
         self._busy.discard(key)
         res = None if OTHER in lab else lab
         self._plabel[key] = res
+        self._plabel[('ret-taint', callee_path)] = TAINT in lab
         return res
 
     INT_RENDER_OK = ('core::fmt::rt::Argument::', 'std::fmt::Arguments::', 'std::fmt::Write::write_fmt', 'std::fmt::format',
@@ -218,8 +219,15 @@ class Hub:
                 lab = self.helper_return_label(c, depth)
                 if lab is not None:
                     return lab
-                return {OTHER}
-            return {OTHER}
+                return {OTHER, TAINT} if self._plabel.get(('ret-taint', c)) else {OTHER}
+            # a call the labelling has no entry for: what it returns is unknown - but if client-controlled data goes in, the
+            # result is treated as client-controlled too (`String::from_utf8_lossy(&hash[..6])`)
+            out = {OTHER}
+            if o.bb is not None:
+                for a in body.blocks[o.bb]['term'].get('args', []):
+                    if TAINT in self.label_operand(body, a, depth + 1, self._seen):
+                        out.add(TAINT)
+            return out
         if o.kind == 'mutcall':
             # e.g. dirs.push(path): the pushed values were labelled through their own origins
             return set()
